@@ -269,12 +269,8 @@ pub fn take_drops() -> String {
 
 pub fn take_cbs() -> String {
     CBLOG.with(|l| {
-        let parts: Vec<String> = l
-            .borrow_mut()
-            .drain(..)
-            .map(|(k, v)| format!("{}:{}", k, v))
-            .collect();
-        format!("[{}]", parts.join(" "))
+        let items: Vec<(u64, u64)> = l.borrow_mut().drain(..).collect();
+        fmt_list(&items)
     })
 }
 
@@ -309,6 +305,23 @@ impl PartialEq for TV {
 }
 
 /// drop-tracked key
+impl Eq for TV {}
+impl Hash for TV {
+    fn hash<H: Hasher>(&self, h: &mut H) {
+        h.write_u64(self.n)
+    }
+}
+impl PartialOrd for TV {
+    fn partial_cmp(&self, o: &Self) -> Option<std::cmp::Ordering> {
+        Some(self.cmp(o))
+    }
+}
+impl Ord for TV {
+    fn cmp(&self, o: &Self) -> std::cmp::Ordering {
+        self.n.cmp(&o.n)
+    }
+}
+
 #[derive(Debug)]
 pub struct TK {
     pub n: u64,
@@ -520,6 +533,9 @@ pub fn key_number<Q: Hash + ?Sized>(q: &Q) -> u64 {
 // eviction callback that logs (key, value)
 // ---------------------------------------------------------------------------------------------
 
+/// logged instead of the key / value when the eviction callback was handed an object that had already been dropped
+pub const DEAD_IN_CALLBACK: u64 = 999_999_999_999;
+
 #[derive(Clone, Default)]
 pub struct LogCb;
 
@@ -533,14 +549,25 @@ impl caches::OnEvictCallback for LogCb {
             } else if kn == std::any::type_name::<String>() {
                 (*(key as *const K as *const String)).num()
             } else if kn == std::any::type_name::<TK>() {
-                (*(key as *const K as *const TK)).n
+                // the callback must be handed the DEPARTING key: still alive while the callback runs
+                let tk = &*(key as *const K as *const TK);
+                if serial_alive(tk.serial) {
+                    tk.n
+                } else {
+                    DEAD_IN_CALLBACK
+                }
             } else {
                 u64::MAX
             }
         };
         let v = unsafe {
             if std::any::type_name::<V>() == std::any::type_name::<TV>() {
-                (*(val as *const V as *const TV)).n
+                let tv = &*(val as *const V as *const TV);
+                if serial_alive(tv.serial) {
+                    tv.n
+                } else {
+                    DEAD_IN_CALLBACK
+                }
             } else {
                 u64::MAX
             }
@@ -556,7 +583,17 @@ impl caches::OnEvictCallback for LogCb {
 pub fn fmt_ent(k: u64, v: u64) -> String {
     format!("{}:{}", k, v)
 }
+/// lists longer than this are printed as `#<len>:<digest>` (same rule in lean/Main.lean): huge caches stay comparable
+/// with the model step by step without gigabytes of trace
+pub const DIGEST_ABOVE: usize = 96;
 pub fn fmt_list(items: &[(u64, u64)]) -> String {
+    if items.len() > DIGEST_ABOVE {
+        let mut h: u64 = 0;
+        for (k, v) in items {
+            h = h.wrapping_mul(1_000_003).wrapping_add(k.wrapping_mul(31)).wrapping_add(*v).wrapping_add(1);
+        }
+        return format!("#{}:{:016x}", items.len(), h);
+    }
     let parts: Vec<String> = items.iter().map(|(k, v)| fmt_ent(*k, *v)).collect();
     format!("[{}]", parts.join(" "))
 }
